@@ -75,7 +75,13 @@ func c01r1(c *Ctx, id string) {
 	if nWriter == 0 {
 		c.Undecided(id, "position-writer", 0, "no function mutates a shared offset map — anchor lost")
 	}
-	// assignments to struct fields of offset-map type
+	// assignments to the field(s) that hold the tracked position map (the receivers of the writer's mutations)
+	owner := map[*types.Var]bool{}
+	for _, m := range muts {
+		if f := loadedField(unwrap(m.Recv)); f != nil && !freshMapIn(m.Recv, m.Fn) {
+			owner[f] = true
+		}
+	}
 	n := 0
 	for _, fn := range w.ModFuncs {
 		allInstrs(fn, func(in ssa.Instruction) {
@@ -84,7 +90,7 @@ func c01r1(c *Ctx, id string) {
 				return
 			}
 			f := fieldOfAddr(st.Addr)
-			if f == nil || !w.isOffsetMap(f.Type()) {
+			if f == nil || !w.isOffsetMap(f.Type()) || !owner[f] {
 				return
 			}
 			n++
@@ -136,7 +142,9 @@ type pwCallClass struct {
 	why  string
 }
 
-func (w *World) listenerContextField(name string) *types.Var { return w.Field("models", "ListenerContext", name) }
+func (w *World) listenerContextField(name string) *types.Var {
+	return w.Field("models", "ListenerContext", name)
+}
 
 // classifyWriterCall classifies a call site of the position writer.
 func classifyWriterCall(w *World, cs callSite) pwCallClass {
@@ -689,7 +697,14 @@ func c01r6helper(c *Ctx, id string, save, helper *ssa.Function, docOrigin string
 		if rootFn(cs.Fn) == save && len(save.Params) > 1 {
 			stateP = "param(" + save.Params[1].Name() + ")"
 		}
-		if stateP != "" && d == stateP+"["+k+"]" {
+		// (k, v) of one iteration step of `range state` is the same pairing as (k, state[k])
+		samePair := false
+		if ek, ok := unwrap(argOfParam(cc, helper, pVb)).(*ssa.Extract); ok && ek.Index == 1 {
+			if ed, ok := unwrap(argOfParam(cc, helper, pDoc)).(*ssa.Extract); ok && ed.Index == 2 && ed.Tuple == ek.Tuple {
+				samePair = stateP != "" && w.Origin(ek.Tuple) == "next(range("+stateP+"))"
+			}
+		}
+		if stateP != "" && (d == stateP+"["+k+"]" || samePair) {
 			c.OK(id, "pair@"+fname(cs.Fn), cs.Call.Pos(), "writes (%s, %s)", k, d)
 		} else {
 			c.Fail(id, "pair@"+fname(cs.Fn), cs.Call.Pos(), "per-vBucket writer called with key %s but document %s (expected %s[%s])", k, d, stateP, k)
@@ -755,5 +770,39 @@ func immutableOffsets(c *Ctx, id string) {
 	c.OK(id, "scan", 0, "%d stores scanned module-wide, %d of them initialise a literal of a protected type, 0 mutate one in place", scanned, lits)
 	if lits < 10 {
 		c.Undecided(id, "floor", 0, "only %d literal initialisations of Offset/SnapshotMarker found — the rule would be vacuous", lits)
+	}
+}
+
+// noRetainedPositionMap: no struct field other than the owner's holds a reference to a position map — readers
+// (API, metrics, checkpoint) must fetch the live map at use time, because Open/Close replace it.
+func noRetainedPositionMap(c *Ctx, id string) {
+	w := c.W
+	owner := map[*types.Var]bool{}
+	for _, m := range w.offsetMapMutations() {
+		if f := loadedField(unwrap(m.Recv)); f != nil && !freshMapIn(m.Recv, m.Fn) {
+			owner[f] = true
+		}
+	}
+	n, bad := 0, 0
+	for _, fn := range w.ModFuncs {
+		allInstrs(fn, func(in ssa.Instruction) {
+			st, ok := in.(*ssa.Store)
+			if !ok {
+				return
+			}
+			f := fieldOfAddr(st.Addr)
+			if f == nil || !w.isOffsetMap(f.Type()) {
+				return
+			}
+			n++
+			if owner[f] {
+				return
+			}
+			bad++
+			c.Fail(id, "retained:"+f.Name()+"@"+fname(fn), st.Pos(), "a reference to the position map is kept in field %s (← %s): after the next rebalance it is the discarded map, and the values exposed from it freeze", f.Name(), w.Origin(st.Val))
+		})
+	}
+	if bad == 0 {
+		c.OK(id, "retained:none", 0, "%d assignments of position-map-typed fields, all to the owner's field", n)
 	}
 }
